@@ -26,9 +26,12 @@ Scope notes.
   number to extend to the end of the input.
 * `scanNumber` models the dispatch of `Scan` at offset 0 with no preceding white space or
   byte order mark (with either, the token's literal cannot be the whole input).
-* EXCLUDED on the literal side: the final semantic check `p.decimal(&v)` of the multiplier
-  branch ("number cannot be represented as int", e.g. `1.0005K`).  It is treated as always
-  succeeding; it is a check on the VALUE, not on the spelling.
+* EXCLUDED on the literal side: the value check of `p.decimal(&v)` in the multiplier branch
+  ("number cannot be represented as int", e.g. `1.0005K`): a check on the VALUE, not on the
+  spelling.  Since /repo 1674508 `p.decimal` also reports apd's parse error of `p.buf`; in
+  `ParseNum` this can only happen for a mantissa without digits, see `negZeroMul` (signed
+  spellings only).  An exponent beyond apd's range (`1e100001`) is NOT rejected by `ParseNum`
+  (no multiplier → `p.decimal` is not called); it is rejected later by `NumInfo.Decimal`.
 * The `p.buf` side effects of the literal parser are not modelled: `p.buf` (and the
   `len(p.buf) == 0` tests in `next`, `scanNumber`, `ParseNum`) only ever influence `p.buf`
   itself and, through `p.decimal`, the excluded semantic check; no branch of the automaton
@@ -338,13 +341,34 @@ def parseNumFrom (cur : Str) (err : Bool) : Option Kind :=
     else if fin.length > 1 then none      -- n.p < len(n.src)
     else some (kindOf isFloat)
 
+/-- After a '-' sign: a lone "0", optionally ".", then a multiplier.  In the multiplier branch
+`scanNumber` hands `p.buf` to apd (`p.decimal`); since /repo 1674508 apd's parse error is
+reported, and 726bce5 re-adds the skipped "0" only when `p.buf` is EMPTY — which it is not
+after `ParseNum` appended the '-' — so the mantissa "-" / "-." has no digit and
+`-0K`, `-0.K`, `-0Ki` are rejected ("invalid number: parse mantissa") while `0K`, `+0K` and
+`-0.0K` are accepted.  This is the only way `p.buf` influences acceptance; every other shape of
+`p.buf` in that branch contains a digit and parses. -/
+def negZeroMul (cs : Str) : Bool :=
+  match cs with
+  | 48 :: r =>
+    let r' := match r with
+      | 46 :: t => t
+      | _ => r
+    match r' with
+    | [m] => isMul m
+    | [m, 105] => isMul m
+    | _ => false
+  | _ => false
+
 /-- `literal.ParseNum` (error → `none`; otherwise int/float) -/
 def parseNum (s : Str) : Option Kind :=
   match s with
   | [] => none                            -- !n.next()
   | c :: cs =>
     let e0 := c == 0
-    if c == 45 || c == 43 then parseNumFrom cs (e0 || nulErr cs)
+    if c == 45 || c == 43 then
+      if c == 45 && negZeroMul cs then none
+      else parseNumFrom cs (e0 || nulErr cs)
     else parseNumFrom s e0
 
 /-- `ParseNum` restricted to spellings without a sign -/
